@@ -740,7 +740,9 @@ impl PaymentState {
             return;
         }
 
-        self.amount_received_msat += req.htlc.amount_msat;
+        self.amount_received_msat = self
+            .amount_received_msat
+            .saturating_add(req.htlc.amount_msat);
         self.cltv_expiry = std::cmp::min(req.htlc.cltv_expiry, self.cltv_expiry);
         self.htlcs.push(sender);
         if !self.is_ready
